@@ -523,7 +523,7 @@ func ruleC18_5(c *Ctx, r *Rep) {
 		var positiveTest func(v ssa.Value, d int) bool
 		positiveTest = func(v ssa.Value, d int) bool {
 			if bo, isB := v.(*ssa.BinOp); isB && bo.Op == token.GTR {
-				if z, isZ := constInt(bo.Y); isZ && z == 0 && (atomicCountRead(bo.X, 0) || sources(bo.X)["field:Count"]) {
+				if z, isZ := constInt(bo.Y); isZ && z == 0 && (atomicCountRead(bo.X, 0) || sources(bo.X)["field:Count"] || isCountOfCopy(bo.X)) {
 					return true
 				}
 			}
@@ -1281,4 +1281,19 @@ func isLenCall(v ssa.Value) bool {
 	}
 	bi, ok := call.Call.Value.(*ssa.Builtin)
 	return ok && bi.Name() == "len"
+}
+
+// isCountOfCopy: the Count field of a by-value copy of a description (`dd := d.copyWith(…); dd.Count > 0`).
+func isCountOfCopy(v ssa.Value) bool {
+	switch x := strip(v).(type) {
+	case *ssa.Field:
+		if st, ok := x.X.Type().Underlying().(*types.Struct); ok && x.Field < st.NumFields() {
+			return st.Field(x.Field).Name() == "Count" && typeIs(x.X.Type(), faultsPkg, "Description")
+		}
+	case *ssa.UnOp:
+		if fa, ok := x.X.(*ssa.FieldAddr); ok && x.Op == token.MUL {
+			return fieldName(fa.X.Type(), fa.Field) == "Count" && typeIs(fa.X.Type(), faultsPkg, "Description")
+		}
+	}
+	return false
 }
